@@ -473,6 +473,66 @@ SPECS.update({
     },
 })
 
+SPECS.update({
+    "C18": {
+        "binary": "wl-gen", "flavor": "plain", "shards": 16, "run": gen_run,
+        "timeout_quick": 900, "timeout_thorough": 3400, "ulimit_kb": 8 << 20,
+        "floor": 300,
+        "technique": "runtime monitoring: owning runtime's own JSON encoder/decoder and encoding/json as oracles",
+        "rule": ("one case = (message value of each runtime incl. well-known types, enums, 64-bit integers, bytes, maps, oneofs; marshal option combination of the 2^3 x indent in {none, ' ', '  ', tab}): the adapter output must be valid JSON, "
+                 "equal as a JSON tree to the owning runtime's own encoder given the same options (protojson / golang jsonpb / gogo jsonpb called directly), be restored to an equal message by JSONUnmarshaler and by the owning runtime's decoder; "
+                 "indentation must be whole copies of the indent string; enum fields are numbers iff requested; zero-valued implicit fields appear iff requested; JSON with an injected unknown key is accepted iff allowed; JSON lacking a required key "
+                 "is accepted iff allowPartial (Google V2, as documented); nil -> (nil, nil), unmarshal into nil -> error; distinct by (flavour, message, option tuple, value class)"),
+        "explanation": "values with NaN or -0.0 are excluded (JSON cannot carry the distinction); comparisons are on parsed JSON trees, never on raw text",
+        "assumptions": TRUST_GEN + ["the owning runtime's JSON implementation is the stated oracle for option effects"],
+    },
+})
+
+SPECS.update({
+    "C19": {
+        "binary": "wl-gen", "flavor": "plain", "shards": 16, "run": gen_run,
+        "timeout_quick": 900, "timeout_thorough": 3400, "ulimit_kb": 8 << 20,
+        "floor": 60,
+        "rule": ("one case = Encoder.EncodeNested(tag, m) into a canary-framed buffer sized from SizeOfTagKey/SizeOfVarint and csproto.Marshal(m), with m one of {generated fast type, hand-written MarshalTo+Size stub, Marshal+Size stub, "
+                 "Marshal-only stub, plain gogo / google v1 / google v2 message incl. well-known types}, as only/first/middle/last field among scalar fields, tags with 1-5 byte keys: the bytes written must be key|varint(len(B))|B with "
+                 "B = csproto.Marshal(m), the write cursor (verif accessor) must advance by exactly that; Decoder.DecodeNested must consume exactly the field (reference walker extent), yield an equal message / the payload, return a failing nested "
+                 "marshaler's / unmarshaler's error unchanged without moving the cursor, and reject a declared length beyond the buffer without invoking the nested decoder (stub counts invocations); "
+                 "distinct by (nested kind, position, payload size class)"),
+        "explanation": "failing stubs are injected for every 7th stub case (MarshalTo error, Marshal error, Unmarshal error)",
+        "assumptions": TRUST_GEN + TRUST_WIRE[2:],
+    },
+})
+
+
+def c20_run(prop, spec, workdir, tier, seed, t0):
+    binary = os.path.join(workdir, "wl-wire")
+    driver.go_build("./cmd/wl-wire", binary, "plain", driver.HARNESS)
+    dump = os.path.join(workdir, "protodump")
+    driver.go_build("./cmd/protodump", dump, "none", driver.REPO)
+    results, crashes, inconc = driver.run_shards(spec, workdir, binary, prop, tier, seed, env_extra={"VERIF_PROTODUMP": dump})
+    merged = driver.merge(results)
+    for c in crashes:
+        merged["violations"].setdefault(c["sig"], c)
+    merged["inconclusive"] += inconc
+    return driver.finish(prop, spec, tier, seed, merged, t0)
+
+
+SPECS.update({
+    "C20": {
+        "binary": "wl-wire", "flavor": "plain", "shards": 16, "run": c20_run,
+        "timeout_quick": 900, "timeout_thorough": 3400,
+        "floor": 50,
+        "technique": "runtime monitoring: render/parse round trip for annotated hex; the real protodump binary run as a child process against a reference renderer over a refwire walk",
+        "rule": ("hex: one case = random bytes rendered as annotated hex (mixed-case digits, ASCII and Unicode spaces before/between/inside digit pairs, ';' comments containing hex digits and ';', LF/CRLF breaks at byte boundaries, "
+                 "empty and comment-only lines): ParseAnnotatedHex must return exactly the bytes; a rendering with one foreign character inserted outside any comment must be rejected; non-trivial when the rendering has a comment and an in-pair space. "
+                 "protodump: one case = one run of the real binary (built from the tree under test) on a seeded valid or malformed message with seeded -expand / -strings path sets, given through -file, redirected stdin or a pipe: stdout must equal "
+                 "the reference rendering (one tag/wire-type header per field in wire order, value lines, recursion exactly into the requested paths), exit status 0 iff the input is well-formed, never a Go panic; "
+                 "distinct by (decoration set, length class) resp. (input channel, number of expand/strings paths, valid?)"),
+        "explanation": "line breaks inside a digit pair are not generated (documented as line-by-line); expand paths are only requested for fields that hold nested messages; path elements are >=1",
+        "assumptions": TRUST_WIRE[:2],
+    },
+})
+
 NOT_APPLICABLE = {}
 
 ENGINES = [
